@@ -166,7 +166,7 @@ EvToolCrash == /\ IsEvent("toolcrash")
 (***************************************************************************)
 JsonFindings(js) ==
   IF js.st = "off" THEN {}
-  ELSE IF js.st = "panic" THEN {<<"C01", "post", "json", "panic">>}
+  ELSE IF js.st = "panic" THEN {<<"C01", "post", "json", "panic">>, <<"C16", "json", "panic", "">>}
   ELSE IF js.st # "ok" THEN {<<"C16", "json", "failed", js.st>>}
   ELSE (IF ~js.wellformed THEN {<<"C16", "json", "malformed", "">>} ELSE {})
        \cup (IF ~js.twice_equal THEN {<<"C16", "json", "unstable", "">>} ELSE {})
@@ -227,6 +227,10 @@ EvRet == /\ ~Light /\ IsEvent("ret")
                        \* C01's second sentence holds for every returned value, whether or not the reference explains it
                        \cup {<<"C01", "post", "export", "panic">> : i \in {q \in 1..Len(ev.out) : ev.out[q].exp.st = "panic"}}
                        \cup {<<"C01", "post", "common", "panic">> : i \in {q \in 1..Len(ev.out) : ev.out[q].common.st = "panic"}}
+                       \* (and a conversion that panics is not the conversion C08-C10 / C13 describe)
+                       \cup {<<(CASE ev.out[i].k \in {"v5", "v7"} -> "C08" [] ev.out[i].k = "v9" -> "C09" [] OTHER -> "C10"), "msg", "export", "panic">> :
+                               i \in {q \in 1..Len(ev.out) : ev.out[q].exp.st = "panic" /\ ev.out[q].k # "err"}}
+                       \cup {<<"C13", "common", "packet", "panic">> : i \in {q \in 1..Len(ev.out) : ev.out[q].common.st = "panic"}}
                        \cup CostFindings(pend[1].buf, ev, tms[p]) \cup JsonFindings(ev.json))
                \* coverage record: which antecedents held on this event (decided by the reference run)
                /\ PrintT("COV~~" \o ToString(l) \o "~~" \o Bool(j.matched) \o "~~" \o Bool(j.conf) \o "~~"
@@ -247,7 +251,17 @@ EvDied == /\ \E e \in {"panic", "crash", "hang"} : IsEvent(e)
           /\ Emit({IF Rec[l].e = "crash" /\ Rec[l].cause = "oom" THEN <<"C15", "cost", "oom", "">>
                    ELSE <<"C01", "call", Rec[l].e,
                           IF Rec[l].e = "panic" THEN Rec[l].msg
-                          ELSE IF Rec[l].e = "crash" THEN Rec[l].cause \o " signal " \o ToString(Rec[l].signal) ELSE "timeout">>})
+                          ELSE IF Rec[l].e = "crash" THEN Rec[l].cause \o " signal " \o ToString(Rec[l].signal) ELSE "timeout">>}
+                  \* a call that does not return does not decode what the buffer holds either: the decode property of
+                  \* every packet kind the reference finds in the buffer is violated as well
+                  \cup (IF pend # <<>> /\ ~Light /\ ~(Rec[l].e = "crash" /\ Rec[l].cause = "oom")
+                        THEN LET p == pend[1].p
+                                 run == RunCall(pend[1].buf, ObsTm(tms[p], lasts[p]), allowed[p], {})
+                                 ks == {run.out[i].k : i \in 1..Len(run.out)} IN
+                             {<<"C03", "call", "no-result", k>> : k \in ks \cap {"v5", "v7"}}
+                             \cup {<<"C04", "call", "no-result", k>> : k \in ks \cap {"v9"}}
+                             \cup {<<"C05", "call", "no-result", k>> : k \in ks \cap {"ipfix"}}
+                        ELSE {}))
           /\ pend' = <<>>
           /\ UNCHANGED <<tms, lasts, allowed, acc>>
 
